@@ -187,6 +187,13 @@ def run_chain(ctx):
                 bad = (k, f'{type(e).__name__}: {e}', {'dy': dy, 'r': rr})
                 break
             now = [float(wg._x[-1]), float(wg._y[-1]), float(wg._z[-1])]
+            try:
+                view = [float(v) for v in wg.lastpt]
+            except Exception as e:
+                view = f'{type(e).__name__}: {e}'
+            if view != now and bad is None:
+                bad = (k, f'lastpt reports {view} but the last stored point is {now}', {'dy': dy, 'r': rr})
+                break
             first = [float(wg._x[n0]), float(wg._y[n0]), float(wg._z[n0])] if wg._x.size > n0 else None
             circ_pts = None
             if k == 'circ':
